@@ -147,3 +147,77 @@ func (s *Sink) Write(p []byte) (int, error) {
 	s.B = append(s.B, p...)
 	return len(p), nil
 }
+
+// ErrInjected is the error returned by FailingWriter.
+var ErrInjected = errInjected{}
+
+type errInjected struct{}
+
+func (errInjected) Error() string { return "vh: injected write failure" }
+
+// FailingWriter accepts exactly K bytes in total and then fails forever (interpreted symbolically as
+// ordinary Go; K is usually symbolic, so the fault position is a solver variable).
+//   Short == false: the Write call that would exceed K accepts nothing and returns an error.
+//   Short == true:  that call accepts the bytes up to K, and returns the short count with an error.
+//   Transient == true: only the one call that crosses K fails (accepting nothing); later calls succeed again,
+//   so a serializer that drops that error would finish "successfully" with a hole in its output.
+type FailingWriter struct {
+	K         int
+	Short     bool
+	Transient bool
+	Got    []byte
+	Failed bool
+	Calls  int
+}
+
+func (f *FailingWriter) Write(p []byte) (int, error) {
+	f.Calls++
+	if f.Failed && !f.Transient {
+		return 0, ErrInjected
+	}
+	if f.Failed && f.Transient {
+		f.Got = append(f.Got, p...)
+		return len(p), nil
+	}
+	if len(f.Got)+len(p) <= f.K {
+		f.Got = append(f.Got, p...)
+		return len(p), nil
+	}
+	f.Failed = true
+	if f.Short {
+		n := f.K - len(f.Got)
+		f.Got = append(f.Got, p[:n]...)
+		return n, ErrInjected
+	}
+	return 0, ErrInjected
+}
+
+// CheckFault is the common C19 oracle: `full` is the fault-free output, err the serializer's result.
+func CheckFault(f *FailingWriter, full []byte, err error) {
+	if f.K < len(full) {
+		Assert(err != nil, "a write failure before the end surfaces as an error")
+	} else {
+		Assert(err == nil, "no fault injected: success (control)")
+	}
+	if f.Transient {
+		return
+	}
+	Assert(len(f.Got) <= len(full) && len(f.Got) <= f.K && string(f.Got) == string(full[:len(f.Got)]), "accepted bytes are a prefix of the fault-free output")
+	if f.Short && f.K < len(full) {
+		Assert(len(f.Got) == f.K, "short-write mode: exactly K bytes were accepted")
+	}
+	if f.K >= len(full) {
+		Assert(len(f.Got) == len(full), "no fault: everything was written")
+	}
+}
+
+// NewFailingWriter picks the delivery mode by a 3-way fork: error, short write, transient error.
+func NewFailingWriter(k int) *FailingWriter {
+	switch Choose(3) {
+	case 1:
+		return &FailingWriter{K: k, Short: true}
+	case 2:
+		return &FailingWriter{K: k, Transient: true}
+	}
+	return &FailingWriter{K: k}
+}
